@@ -155,7 +155,7 @@ def run(tier, seed):
         for e in es:
             cf = e["cfg"]
             bump(dist["engine"], e["engine"]); bump(dist["cache"], cf["cache"]); bump(dist["roles"], e["role"])
-            for f in ("capmax", "alloc", "moving", "debug", "custom", "listener", "closeondone"):
+            for f in ("capmax", "alloc", "moving", "chunked", "debug", "custom", "listener", "closeondone"):
                 if cf[f]: bump(dist["flags_on"], f)
             t = e.get("trace")
             if t:
@@ -187,8 +187,8 @@ def run(tier, seed):
     fac = ("cache", "capmax", "allocator", "debug", "custom", "listener", "closeondone")
     lv = {f: {False, True} for f in fac}
     lv["cache"] = {"none", "mem", "dircold", "dirwarm", "memshared-ab", "memshared-ba", "dirshared-ab", "dirshared-ba"}
-    lv["allocator"] = {"off", "fixed", "moving"}
-    def fv(r, f): return ("off" if not r["alloc"] else "moving" if r["moving"] else "fixed") if f == "allocator" else r[f]
+    lv["allocator"] = {"off", "fixed", "moving", "chunked"}
+    def fv(r, f): return ("off" if not r["alloc"] else "moving" if r["moving"] else "chunked" if r.get("chunked") else "fixed") if f == "allocator" else r[f]
     missing = [(f1, a, f2, b) for i, f1 in enumerate(fac) for f2 in fac[i + 1:] for a in lv[f1] for b in lv[f2]
                if not any(fv(r, f1) == a and fv(r, f2) == b for r in lat)]
     # ... and the fixed rows pair capacity-from-max true/false over every shared cache in both orders, and the moving allocator with capacity-from-max
@@ -208,7 +208,7 @@ def run(tier, seed):
     ck.extra["rule"] = ("generated integer programs (arithmetic, loops, memory load/store/grow, globals, internal calls, a logging host import, trapping paths, and the "
                         "store / grow (direct, via a callee, via the host) / store-to-the-same-address shape, also as 9 fixed programs) "
                         "x pairwise-covering sample of {cache none/mem/dir cold/dir warm/shared in memory or on disk between two live runtimes with different "
-                        "settings, both orders} x capacity-from-max x allocator (none, in place, moving) x debug info x custom sections x listener x close-on-context-done x both engines; "
+                        "settings, both orders} x capacity-from-max x allocator (none, in place, moving, chunked with spare capacity) x debug info x custom sections x listener x close-on-context-done x both engines; "
                         "plus fixed rows sharing a cache between two live runtimes that differ only in capacity-from-max, in both orders, and the moving allocator "
                         "with capacity-from-max; oracle: every trace (results, trap class, peek calls and host reads after every call, host-call log, final memory "
                         "digest/pages, global, memory definition) equals the reference; "
